@@ -114,11 +114,19 @@ def check_C01(tier: str, seed: int) -> int:
         rng = random.Random(seed)
         n = 400 if tier == "quick" else 6000
         cases = []
+        twin_pairs: List[Tuple[int, int]] = []
         for i in range(n):
             s = gen.gen_sprite(rng, max_canvas=6, max_layers=7, max_frames=4)
             ch = gen.random_choices(rng) if i % 2 else gen.default_choices()
             data = gen.encode(s, ch, rng)
             cases.append((w.put(data), s, data))
+            if i % 4 == 0:
+                # right behind it, the same sprite under other names (observed below pair after pair on one thread: the driver keeps
+                # a sprite alive while the next one is loaded)
+                t = name_twin_of(s, rng)
+                td = gen.encode(t, None, rng)
+                twin_pairs.append((len(cases) - 1, len(cases)))
+                cases.append((w.put(td), t, td))
         nbig = 0
         for cnt in [(65535, 0), (65535, 65535), (1, 65535)]:
             # exactly 65535 chunks in frame 0: an old-format header (new = 0) whose count equals 0xFFFF, and the two other spellings
@@ -173,6 +181,14 @@ def check_C01(tier: str, seed: int) -> int:
         for i, r in zip(small, mres):
             mb[i] = r
         corr_fail, direct_fail = [], list(reader_fail)
+        # originals and their name-only twins, pair after pair on ONE thread (a -> b -> a): each reports what ITS file encodes
+        tp_idx = [i for a_, b_ in twin_pairs for i in (a_, b_, a_)]
+        tp = vplib.impl_observe("release", [paths[i] for i in tp_idx], w.dir, 1, shards=1, tag="twins")
+        for i, b in zip(tp_idx, tp):
+            if b is None or ib[i] is None or b[0] != ib[i][0]:
+                direct_fail.append({"what": "what a sprite reports depends on another sprite that is alive at the same time (the same sprite under other names)",
+                                    "sprite": gen.describe(cases[i][1]), "_data": cases[i][2]})
+                break
         dist = Counter()
         sigs = set()
         for i, p in enumerate(paths):
